@@ -20,6 +20,13 @@ func verifMethodDecl(name string, doc ...string) *ast.FuncDecl {
 	return fd
 }
 
+// verifGenericFuncDecl: a function with a type parameter (usable by map ... | FUNC and default FUNC)
+func verifGenericFuncDecl(name string, doc ...string) *ast.FuncDecl {
+	fd := verifFuncDecl(name, doc...)
+	fd.Type.TypeParams = &ast.FieldList{List: []*ast.Field{{Names: []*ast.Ident{{Name: "T"}}, Type: &ast.Ident{Name: "any"}}}}
+	return fd
+}
+
 func verifFuncDecl(name string, doc ...string) *ast.FuncDecl {
 	fd := &ast.FuncDecl{Name: &ast.Ident{Name: name}, Type: &ast.FuncType{}}
 	if len(doc) > 0 {
@@ -46,6 +53,7 @@ func VerifHarness_C19_LocalConfig() {
 		// (an unexported function can be a custom function when the output is written into its package)
 		verifFuncDecl("makeLabel", "// makeLabel does it.", "// goverter:context fifth"),
 		verifFuncDecl("_hidden", "//goverter:context sixth"),
+		verifGenericFuncDecl("Generic", "// Generic is generic.", "// goverter:context seventh"),
 	}}, {Decls: []ast.Decl{verifFuncDecl("OtherFile", "/* goverter:context fourth */")}}}}
 	g := &PackageLoader{locals: map[string]map[string]method.LocalOpts{}}
 	// the order of the questions is arbitrary
@@ -72,6 +80,8 @@ func VerifHarness_C19_LocalConfig() {
 			verifAssert("unexported-function-is-read-like-any-other", len(o4.Context) == 1 && o4.Context["fifth"])
 			o5 := g.localConfig(p2, "_hidden")
 			verifAssert("unexported-function-is-read-like-any-other", len(o5.Context) == 1 && o5.Context["sixth"])
+			o6 := g.localConfig(p2, "Generic")
+			verifAssert("generic-function-is-read-like-any-other", len(o6.Context) == 1 && o6.Context["seventh"])
 		}
 	}
 	for i := 0; i < 4; i++ {
